@@ -542,6 +542,17 @@ def run_property(mod, tier, seed, replay=None):
         missing = [t for t in thms if t not in axioms]
         if missing:
           broken.append({'kind': 'proof', 'name': 'Print Assumptions', 'detail': 'no output for %s' % missing})
+  # thorough tier: the independent checker re-checks the compiled property file and everything it depends on, and lists the axioms
+  if tier == 'thorough' and not any(b['kind'] in ('proof', 'translator') for b in broken):
+    obligations.append('coqchk:%s' % pid)
+    t1 = time.time()
+    rc, out = sh(['coqchk', '-o', '-silent', '-Q', '.', 'DK', 'DK.' + mod.PROPS[:-2].replace('/', '.')], 3000, cwd=COQ)
+    ck_axioms = re.findall(r'^\s{4}(\S+)\s*$', out.split('* Axioms:')[1].split('* Constants')[0], re.M) if '* Axioms:' in out else []
+    unsafe = [l.strip() for l in out.split('\n') if ('type-in-type' in l or 'unsafe (co)fixpoints' in l or 'positivity is assumed' in l) and '<none>' not in l]
+    notes['coqchk'] = {'exit': rc, 'axioms': ck_axioms, 'seconds': round(time.time() - t1, 1), 'unsafe_flags': unsafe}
+    bad = [a for a in ck_axioms if a not in ALLOWED_AXIOMS and a.split('.')[-1] not in ALLOWED_AXIOMS]
+    if rc != 0 or bad or unsafe or 'CONTEXT SUMMARY' not in out:
+      broken.append({'kind': 'proof', 'name': 'coqchk:%s' % pid, 'detail': 'coqchk exit %s; unexpected axioms %s; %s; %s' % (rc, bad, unsafe, out.strip()[-300:])})
   lint_msgs = lint(cone(mod.PROPS))
   obligations.append('lint:no-escape-hatches')
   if lint_msgs:
